@@ -771,6 +771,25 @@ func Run(r *mc.Run) {
 			}
 		}
 	}
+	// referenced files whose names are tails, heads or case variants of the control file's own name: ordinary files
+	for _, kind := range []string{"dsc", "changes"} {
+		cn := In{Kind: kind}.ctlName()
+		var rel []string
+		for _, k := range []int{1, 3, 4, 8, len(cn) / 2, len(cn) - 1} {
+			if k < len(cn) {
+				rel = append(rel, cn[len(cn)-k:], cn[:k])
+			}
+		}
+		rel = append(rel, strings.ToUpper(cn), "lib"+cn, cn+".asc", cn+"~")
+		for _, op := range []string{"copy", "move", "remove"} {
+			for _, s := range gen.Dedup(rel) {
+				if s == "." || s == ".." || strings.ContainsAny(s, "/") {
+					continue
+				}
+				bases = append(bases, In{Kind: kind, Op: op, Names: []string{s, "hello_1.0.orig.tar.gz"}, Dest: "emptydir", Event: "none"})
+			}
+		}
+	}
 	// an upload that lists its own .dsc (what a real source .changes does), at every position of a 3-file upload, and large
 	// uploads: more referenced files than small-slice shortcuts of the standard library cover (sort.Slice switches
 	// algorithm above 12 elements, append doubles capacities), with the .dsc listed first, in the middle and last
